@@ -174,7 +174,8 @@ def opRun : P (List String) := do
       kv "iters" (showNats o.report.iters),
       kv "reasons" (",".intercalate (o.report.reasons.map Reason.name)),
       kv "L2s" (showFs o.report.L2s), kv "seed" (toString seed),
-      kv "adopted" (showNats (o.adopted.map fun b => if b then 1 else 0))]
+      kv "adopted" (showNats (o.adopted.map fun b => if b then 1 else 0)),
+      kv "nreal" (toString r), kv "maxL2" (showF (maxL2 o.report.L2s))]
     if tr ≥ 1 then
       -- per-realization starts, recomputed exactly as `runAll` does
       let net := build dir rc.starts rc.ends rc.weights
